@@ -64,8 +64,8 @@ Start ==
           <<~IllegalTrans(g.state, Ev.trans), "C05.LegalTransition">>,
           <<~(g.state = "tripped" /\ now >= g.shield /\ (Ev.trans = <<>> \/ Head(Ev.trans) # "recovering")), "C12.RecoveryBegins">>,
           <<~(g.state = "recovering" /\ now > g.rstart + D /\ ~(pass /\ g1.state = "standby")), "C12.StandbyAfterRecovery">>,
-          <<~(inRamp /\ pass /\ ~(2 * D * (g1.a + 1) <= el * (g1.a + g1.d + 1))), "C12.PassWithinRamp">>,
-          <<~(inRamp /\ ~pass /\ ~(2 * D * (g1.a + 1) >= el * (g1.a + g1.d + 1))), "C12.RefuseOnlyAtRamp">> >>)
+          <<~(inRamp /\ pass /\ ~(RampL(g1.a + 1, el, D) <= RampR(g1.a + g1.d + 1, el, D))), "C12.PassWithinRamp">>,
+          <<~(inRamp /\ ~pass /\ ~(RampL(g1.a + 1, el, D) >= RampR(g1.a + g1.d + 1, el, D))), "C12.RefuseOnlyAtRamp">> >>)
      /\ g' = IF inRamp THEN (IF pass THEN [g1 EXCEPT !.a = @ + 1] ELSE [g1 EXCEPT !.d = @ + 1]) ELSE g1
      /\ nstandby' = nstandby + CountIn(Ev.trans, "standby")
      /\ ntrip' = ntrip + CountIn(Ev.trans, "tripped")
@@ -139,8 +139,8 @@ CAdmit ==       \* decision taken under the breaker's lock (not standby at the q
      /\ bad' = ReportAll(bad, scn, l, <<
           <<~(now < g.shield /\ Ev.pass), "C05.TrippedShields">>,
           <<~(g.state = "standby" /\ ~Ev.pass), "C05.StandbyPasses">>,
-          <<~(inRamp /\ Ev.pass /\ ~(2 * D * (g.a + 1) <= el * (g.a + g.d + 1))), "C12.PassWithinRamp">>,
-          <<~(inRamp /\ ~Ev.pass /\ ~(2 * D * (g.a + 1) >= el * (g.a + g.d + 1))), "C12.RefuseOnlyAtRamp">> >>)
+          <<~(inRamp /\ Ev.pass /\ ~(RampL(g.a + 1, el, D) <= RampR(g.a + g.d + 1, el, D))), "C12.PassWithinRamp">>,
+          <<~(inRamp /\ ~Ev.pass /\ ~(RampL(g.a + 1, el, D) >= RampR(g.a + g.d + 1, el, D))), "C12.RefuseOnlyAtRamp">> >>)
      /\ g' = IF inRamp THEN (IF Ev.pass THEN [g EXCEPT !.a = @ + 1] ELSE [g EXCEPT !.d = @ + 1]) ELSE g
   /\ UNCHANGED <<scn, cfg, now, b, resp, gresp, gnext, ntrip, nstandby, drift>> /\ nev' = nev + 1
 CEffects ==
